@@ -379,6 +379,89 @@ func c10scenario(kind string, steps, bound int, reader bool, go123 bool, alphabe
 	return sc
 }
 
+// c10concurrentSets: two threads set the read deadline of one connection at the same time (optionally while an
+// earlier deadline's timer is armed); after both calls returned, the deadline is set once more (+10 ms) and a
+// read that finds no data must be released with a timeout, not earlier than that deadline.
+func c10concurrentSets(kind string, bound int) *explore.Scenario {
+	name := fmt.Sprintf("rd %s: two concurrent SetReadDeadline calls, then a deadline that must release a blocked read", kind)
+	sc := &explore.Scenario{Name: name, Bound: bound}
+	sc.Cfg.Horizon = 5 * time.Second
+	menu := []string{"zero", "+5ms", "+10ms"}
+	sc.Make = func() (func(), func(*zzvsched.Exec) (string, *explore.Violation)) {
+		var viol *explore.Violation
+		var script []string
+		finished, mainInRead := false, false
+		var lastD time.Duration
+		result := ""
+		fail := func(sig, format string, a ...any) {
+			if viol == nil {
+				viol = &explore.Violation{Sig: sig, Msg: fmt.Sprintf("%s, %v: ", kind, script) + fmt.Sprintf(format, a...)}
+			}
+		}
+		body := func() {
+			c := mkRdConn(kind)
+			if zzvsched.Choose(2) == 1 {
+				script = append(script, "first:+20ms")
+				_ = c.setRD(zzvsched.Base.Add(20 * time.Millisecond))
+			}
+			var vals [2]time.Time
+			for i := 0; i < 2; i++ {
+				k := zzvsched.Choose(len(menu))
+				script = append(script, menu[k])
+				switch menu[k] {
+				case "+5ms":
+					vals[i] = zzvsched.Base.Add(5 * time.Millisecond)
+				case "+10ms":
+					vals[i] = zzvsched.Base.Add(10 * time.Millisecond)
+				}
+			}
+			for i := 0; i < 2; i++ {
+				i := i
+				zzvsched.GoNamed(fmt.Sprintf("setter%d", i), func() { _ = c.setRD(vals[i]) })
+			}
+			zzvsched.WaitIdle()
+			last := zzvsched.Now().Add(10 * time.Millisecond)
+			_ = c.setRD(last)
+			lastD = last.Sub(zzvsched.Base)
+			mainInRead = true
+			n, err := c.read(make([]byte, 32))
+			mainInRead = false
+			end := zzvsched.Elapsed()
+			switch {
+			case isTimeout(err) && end < lastD:
+				fail("C10 early-or-spurious-timeout "+kindClass(kind), "Read returned a timeout at %v, before the deadline in force (%v; set after both concurrent calls had returned)", end, lastD)
+			case isTimeout(err):
+				result = "timeout"
+			default:
+				fail("C10 unexpected-result "+kindClass(kind), "nothing was delivered, yet Read returned (%d, %v)", n, err)
+			}
+			finished = true
+		}
+		check := func(ex *zzvsched.Exec) (string, *explore.Violation) {
+			out := strings.Join(script, ",") + " -> " + result
+			if len(ex.Panics) > 0 {
+				return out, &explore.Violation{Msg: fmt.Sprintf("%s, %v: panic: %s\n%s", kind, script, ex.Panics[0].Value, ex.Panics[0].Stack), Sig: "C10 panic " + kindClass(kind)}
+			}
+			if viol != nil {
+				return out, viol
+			}
+			if !finished {
+				if mainInRead && !ex.HorizonHit {
+					return out, &explore.Violation{Sig: "C10 blocked-read-not-released " + kindClass(kind),
+						Msg: fmt.Sprintf("%s, %v: at quiescence (%v) the Read is still blocked although the read deadline %v, set after both concurrent calls had returned, has passed", kind, script, ex.EndClock, lastD)}
+				}
+				if ex.HorizonHit {
+					return out + " HORIZON", nil
+				}
+				return out, &explore.Violation{Msg: fmt.Sprintf("%s, %v: main thread blocked outside Read: %v", kind, script, ex.Parked), Sig: "C10 harness-blocked " + kindClass(kind)}
+			}
+			return out, nil
+		}
+		return body, check
+	}
+	return sc
+}
+
 func kindClass(kind string) string {
 	if strings.HasPrefix(kind, "vnet") {
 		return "vnet"
@@ -417,6 +500,11 @@ func init() {
 					// the same churn while a second thread is inside Read (anywhere between its entry and its wait)
 					out = append(out, c10scenario(k, 2, 2, true, false, c10churnOps))
 				}
+				if tier == "quick" {
+					out = append(out, c10concurrentSets(k, 2))
+				} else {
+					out = append(out, c10concurrentSets(k, 3))
+				}
 				if strings.HasPrefix(k, "vnet") {
 					out = append(out, c10scenario(k, 4, 0, false, true))
 					out = append(out, c10scenario(k, 3, 1, true, true))
@@ -424,7 +512,7 @@ func init() {
 			}
 			return out
 		},
-		Rule: "for each connection type (packet buffer, dpipe, udp.Conn over the fake socket, vnet socket via loopback and via a router, Bridge endpoint with a ticking peer): every history of the stated length over {SetReadDeadline(zero|past|+10ms|+100ms), idle 20/200 ms, deliver one datagram, Read}, sequentially and with a second thread blocked in Read, x every schedule within the deviation bound; vnet sockets under both channel-timer semantics (legacy and go1.23)",
+		Rule: "for each connection type (packet buffer, dpipe, udp.Conn over the fake socket, vnet socket via loopback and via a router, Bridge endpoint with a ticking peer): every history of the stated length over {SetReadDeadline(zero|past|+10ms|+100ms), idle 20/200 ms, deliver one datagram, Read}, sequentially and with a second thread blocked in Read, x every schedule within the deviation bound; vnet sockets under both channel-timer semantics (legacy and go1.23); plus, per connection type, two threads calling SetReadDeadline at the same time (optionally over an armed earlier deadline), after which a +10 ms deadline must release a blocked read, and not early",
 		Assumptions: []string{"a timeout is judged strictly (never before a non-zero deadline that was in force during the call); a required timeout is asserted only after the system settled past the deadline",
 			"OS socket replaced by zzvsched/fakenet for udp.Conn"}})
 }
